@@ -596,7 +596,7 @@ def _focused(V, tier, prop, progs, checks=("result", "boundary", "link"), pertur
 def C07(V, tier):
     op_replay(V, workdir("C07r"), tier, "C07", ["fold", "kfold"])
     rng = random.Random(seed() + 7)
-    _focused(V, tier, "C07", gen.agg_programs(rng, 70 if tier == "quick" else 700), checks=("result", "conform"))
+    _focused(V, tier, "C07", gen.agg_programs(rng, 112 if tier == "quick" else 700), checks=("result", "conform"))
 
 
 # ------------------------------------------------------------------------------------------------
@@ -955,7 +955,7 @@ def C08(V, tier):
 def C09(V, tier):
     binary_replay(V, workdir("C09r"), tier, "C09", [("zip", {}), ("merge", {})])
     rng = random.Random(seed() + 9)
-    results, traces, jobs_by_id = _focused(V, tier, "C09", gen.fan_programs(rng, 60 if tier == "quick" else 600),
+    results, traces, jobs_by_id = _focused(V, tier, "C09", gen.fan_programs(rng, 98 if tier == "quick" else 600),
                                            checks=("result", "conform"))
 
 
@@ -988,7 +988,7 @@ def C10(V, tier):
     rng = random.Random(seed() + 10)
     q = tier == "quick"
     # D: results of loop programs (final state, iterate output) against the sequential loop semantics
-    progs = gen.loop_programs(rng, 40 if q else 400)
+    progs = gen.loop_programs(rng, 60 if q else 400)
     _focused(V, tier, "C10", progs, checks=("result", "boundary", "conform"), perturb_us=300)
     # T: per-round state reads, lock discipline, leader decisions, on replay loops with state-reading
     # bodies, multi-host layouts, with the state feedback of one host held back (schedule from the
@@ -1064,7 +1064,7 @@ def C11(V, tier):
     import project
     sideinput_model(V, workdir("C11m"), tier)
     rng = random.Random(seed() + 11)
-    progs = gen.loop_programs(rng, 40 if tier == "quick" else 400, nested=False, side=True)
+    progs = gen.loop_programs(rng, 60 if tier == "quick" else 400, nested=False, side=True)
     results, traces, jobs_by_id = _focused(V, tier, "C11", progs, checks=("result", "boundary", "conform"), perturb_us=300)
     # T: per round and per replica, what the block that combines the loop stream with the outside stream
     # was handed by its Start (start_out hook), against what it received from the network once
@@ -1222,7 +1222,7 @@ def C20(V, tier):
                 for at in (0, 1, 3):
                     pts.append((n["id"], gid, at))
         rng.shuffle(pts)
-        for (node, gid, at) in pts[: (3 if q else 6)]:
+        for (node, gid, at) in pts[: (5 if q else 6)]:
             progs.append({"name": f"{p['name']}@{node}.{gid}.{at}", "prog": p["prog"], "sinks": p["sinks"],
                           "crash": {"node": node, "gid": gid, "at": at}})
     jobs = jobsuite.make_jobs(progs, configs, trace=True, keep=["probe", "worker", "exec_end"],
@@ -1311,7 +1311,7 @@ def latency_jobs(tier, rng):
     pars = [1, 2, 3]
     combos = [(m, d, p) for m in modes for d in depths for p in pars]
     rng.shuffle(combos)
-    n = 10 if tier == "quick" else 150
+    n = 18 if tier == "quick" else 150
     # make sure every mode occurs
     chosen = []
     for m in modes:
